@@ -212,19 +212,26 @@ theorem start_never_panics (P : Params) (hP : P.Good) (c : HostCfg) (e : Ext) (i
     exact absurd hb key.2
 
 /-- **Every error return has killed the launched process** (shared with C05). -/
-theorem start_err_kills (P : Params) (c : HostCfg) (e : Ext) (i : Input) (k : ErrKind) (killed : Bool) :
+theorem start_err_kills (P : Params) (hF : P.cleanupKillCtxFresh = true) (c : HostCfg) (e : Ext) (i : Input) (k : ErrKind) (killed : Bool) :
     start P c e i = .err k killed → killed = true := by
   unfold start
-  cases body P c e i <;> simp [deferred]
+  cases body P c e i <;> simp [deferred, hF]
+  all_goals (intro _ h; exact h.symm)
 
 /-- **Bounded wait**: silence, early exit and a closed stdout all end in an error —
 every arm of the `select` other than a delivered line is an error arm, and the
 timer arm exists. -/
-theorem start_nonline_errs (P : Params) (c : HostCfg) (e : Ext) :
+theorem start_nonline_errs (P : Params) (hF : P.cleanupKillCtxFresh = true) (c : HostCfg) (e : Ext) :
     start P c e .silent = .err .timeout true ∧
     start P c e .exited = .err .exited true ∧
     start P c e .closed = .err .unrecognized true := by
-  simp [start, body, deferred]
+  simp [start, body, deferred, hF]
+
+/-- a clean-up that hands the (already expired) start context to a runner honouring it: at the start timeout the error is
+returned and the process keeps running -/
+theorem expired_ctx_witness :
+    start ⟨true, true, 4, 50, 1, true, true, false⟩ ⟨[1], [sNetrpc], false, false⟩ ⟨fun n a => some (n, a), fun _ => none, fun _ => none, fun _ => true⟩ .silent
+      = .err .timeout false := by decide
 
 /-- The first four checks, as individual corollaries (each a "drop this check" mutant). -/
 theorem start_ok_core_is_one (P : Params) (hP : P.Good) (c : HostCfg) (e : Ext) (l : Bytes)
@@ -275,7 +282,7 @@ def lineFooBar : Bytes := [49, 124, 49, 124, 102, 111, 111, 124, 98, 97, 114]
 
 /-- D1: with the address error unchecked, `1|1|foo|bar` yields a nil error and a nil address. -/
 theorem addr_unchecked_witness :
-    start ⟨false, true, 4, 50, 1, true, true⟩ cfgPlain extNone (.line lineFooBar) = .okNoAddr := by decide
+    start ⟨false, true, 4, 50, 1, true, true, true⟩ cfgPlain extNone (.line lineFooBar) = .okNoAddr := by decide
 
 /-- `1|1|tcp|:1|netrpc|` followed by 51 bytes of certificate -/
 def lineCert : Bytes :=
@@ -286,11 +293,11 @@ def extAll : Ext := ⟨fun n a => some (n, a), fun a => some ⟨sTcp, a⟩, fun 
 /-- D2: without the nil guard, a parseable certificate offered to a client without TLS panics
 (and the deferred handler kills the plugin before re-panicking). -/
 theorem cert_nil_witness :
-    start ⟨true, false, 4, 50, 1, true, true⟩ cfgPlain extAll (.line lineCert) = .panic true := by decide
+    start ⟨true, false, 4, 50, 1, true, true, true⟩ cfgPlain extAll (.line lineCert) = .panic true := by decide
 
 /-- Fewer required fields than the four that are indexed: index out of range. -/
 theorem min_fields_witness :
-    start ⟨true, true, 3, 50, 1, true, true⟩ cfgPlain extAll (.line [49, 124, 49, 124, 116]) = .panic true := by decide
+    start ⟨true, true, 3, 50, 1, true, true, true⟩ cfgPlain extAll (.line [49, 124, 49, 124, 116]) = .panic true := by decide
 
 /-- `1|1|tcp|a|grpc` offered to a net/rpc-only client -/
 def lineGrpc : Bytes := [49, 124, 49, 124, 116, 99, 112, 124, 97, 124, 103, 114, 112, 99]
@@ -298,16 +305,16 @@ def lineGrpc : Bytes := [49, 124, 49, 124, 116, 99, 112, 124, 97, 124, 103, 114,
 /-- With the address recorded where it is resolved, a line rejected for its protocol makes the
 first `Start` fail (and kill the plugin) — and every later `Start` succeed. -/
 theorem address_early_witness :
-    start ⟨true, true, 4, 50, 1, false, true⟩ cfgPlain extAll (.line lineGrpc) = .err .protocol true ∧
-    startAgainOk ⟨true, true, 4, 50, 1, false, true⟩ cfgPlain extAll (.line lineGrpc) = true := by decide
+    start ⟨true, true, 4, 50, 1, false, true, true⟩ cfgPlain extAll (.line lineGrpc) = .err .protocol true ∧
+    startAgainOk ⟨true, true, 4, 50, 1, false, true, true⟩ cfgPlain extAll (.line lineGrpc) = true := by decide
 
 /-! ### Non-vacuity -/
 
 /-- `1|1|tcp|:1|netrpc|` is accepted by a plain client with exactly the line's values. -/
-example : start ⟨true, true, 4, 50, 1, true, true⟩ cfgPlain extAll
+example : start ⟨true, true, 4, 50, 1, true, true, true⟩ cfgPlain extAll
     (.line [49, 124, 49, 124, 116, 99, 112, 124, 58, 49, 124, 110, 101, 116, 114, 112, 99, 124])
     = .ok ⟨sTcp, [58, 49]⟩ sNetrpc 1 := by decide
 
-example : (⟨true, true, 4, 50, 1, true, true⟩ : Params).Good := by decide
+example : (⟨true, true, 4, 50, 1, true, true, true⟩ : Params).Good := by decide
 
 end GoPlugin.Props.C01
